@@ -7,7 +7,7 @@ import importlib
 ID = "C02"
 THEOREM_MODULE = "SimVerif.Props.C02"
 NONTRIVIAL_FLAGS = {"gated-in", "below-gate", "confidence-raised", "beyond-chi2-gate", "greedy-suboptimal", "competition", "multi", "at-threshold", "too-far"}
-RULE = ("(a) `smetric`: SortMetric through Track::distances on a track built from 1..6 observations and a one-observation candidate — overlapping / near / far pairs, confidences below and above the configured minimum "
+RULE = ("(a) `smetric`: SortMetric through Track::distances on a track built from 1..6 observations and a one-observation candidate — overlapping / near / far pairs, confidences below and above the configured minimum, default and non-default Kalman position / velocity weights of the track (the Mahalanobis gate must be computed with the track's own filter) "
         "(non-default minima included), IoU thresholds and Mahalanobis; the executor reports the boxes the metric actually sees, cos/sin of their angles and the track's raw filter state, the model recomputes IoU*max(conf,min) / the chi-square gate exactly; "
         "(b) `vote hung`: SortVoting::winners on weight matrices up to 5x5 on a 1/64 grid straddling the threshold (2x2, 2x3, 3x2 exhaustive in the thorough tier) — the answer must be a valid maximum-weight gated one-to-one assignment (checked by enumeration), equal to the model's when unique; "
         "(c) tracker histories with approaching / crossing objects (see C01), every choice validated as maximum weight; non-trivial = pairs inside / below the gate, raised confidence, beyond the chi-square gate, matrices where row-greedy is suboptimal, competing detections; distinct = distinct request line")
@@ -45,6 +45,10 @@ def smetric_line(rng):
         if rng.random() < 0.7:     # keep the candidate near the track so that the chi-square gate is exercised
             b = [f32(a[0] + rng.uniform(-1, 1) * a[4] * a[3] * rng.choice([0.02, 0.1, 0.5])), f32(a[1] + rng.uniform(-1, 1) * a[4] * rng.choice([0.02, 0.1, 0.5])),
                  a[2], f32(a[3] * rng.uniform(0.9, 1.1)), f32(a[4] * rng.uniform(0.9, 1.1))]
+    if rng.random() < 0.4:
+        # non-default Kalman weights of the track options: the gate must be computed with the track's own filter
+        wp, wv = rng.choice([0.02, 0.1, 0.25, 0.5]), rng.choice([1 / 160, 0.01, 0.05])
+        return "smetricw %s %s %s %s %d %s %s" % (m, f32tok(minconf), f32tok(wp), f32tok(wv), k, " ".join(track), box6(b, conf))
     return "smetric %s %s %d %s %s" % (m, f32tok(minconf), k, " ".join(track), box6(b, conf))
 
 
@@ -61,7 +65,7 @@ def generate(rng, tier):
 
 def shape_key(case, results):
     t = case[0].split()
-    if t[0] == "smetric": return "smetric-" + t[1]
+    if t[0] in ("smetric", "smetricw"): return "smetric-" + t[1]
     if t[0] == "vote": return "vote-hung"
     for r in results:
         if not r.o or not r.k or r.bad:
